@@ -69,8 +69,8 @@ def mon_delivery(tr, pid='C01', require_complete=True, skip_uids=()):
         side = spec['side']
         peer = OTHER[side]
         evs = by_uid.get(uid, [])
-        if st.get('issue_raised'):
-            continue
+        if st.get('issue_raised') or st.get('abandoned') or st.get('deferred'):
+            continue  # (a publisher that was never subscribed to has not sent its request)
         d, m = A.payload_bytes(uid, A.TAG_REQ, 0, spec.get('req', [1, 0]))
         if k == 'mp':
             if m:
@@ -896,7 +896,7 @@ def api_terminated(tr, uid):
     spec = st['spec']
     k = spec['k']
     evs = [e for e in tr.world.log if e.get('uid') == uid]
-    if st.get('issue_raised'):
+    if st.get('issue_raised') or st.get('abandoned'):
         return True
     if k == 'mp':
         return True
